@@ -2,6 +2,7 @@ package sym
 
 import (
 	"fmt"
+	"go/types"
 	"strconv"
 
 	"golang.org/x/tools/go/ssa"
@@ -326,6 +327,101 @@ func registerMoreStubs(it *Interp) {
 			return Tuple{sum, it.nilError()}
 		}
 		return Tuple{it.c64(0), it.newError("strconv.Atoi: invalid syntax")}
+	}
+	// fmt.Sscanf for formats made of %Nd / %0Nd verbs only, on inputs that consist of decimal
+	// digits only (the fixed-width decimal ids of this library): each verb takes up to N digits
+	// (at least one, else "unexpected EOF"), trailing input is ignored. Anything else - other
+	// verbs, literal text, signs, spaces, underscores in the input - is outside the model.
+	s["fmt.Sscanf"] = func(it *Interp, fr *frame, cc *ssa.CallCommon, a []Value) Value {
+		st := it.St
+		format, ok := it.concreteStr(a[1].(*Str))
+		if !ok {
+			panic(pathEnd{"notenc", "fmt.Sscanf with a symbolic format"})
+		}
+		var widths []int
+		for i := 0; i < len(format); {
+			if format[i] != '%' {
+				panic(pathEnd{"notenc", "fmt.Sscanf format with literal text: " + format})
+			}
+			i++
+			w := 0
+			for i < len(format) && format[i] >= '0' && format[i] <= '9' {
+				w = w*10 + int(format[i]-'0')
+				i++
+			}
+			if i >= len(format) || format[i] != 'd' || w == 0 || w > 18 {
+				panic(pathEnd{"notenc", "fmt.Sscanf format outside the %Nd model: " + format})
+			}
+			i++
+			widths = append(widths, w)
+		}
+		args := it.anyArgs(a[2])
+		x := a[0].(*Str)
+		L := int(it.concretize(x.Len))
+		v := it.viewStr(x)
+		alldig := st.T
+		for i := 0; i < L; i++ {
+			alldig = st.And(alldig, it.between(it.cellAtI(v, i), '0', '9'))
+		}
+		if !it.branchOrConst(alldig) {
+			panic(pathEnd{"notenc", "fmt.Sscanf input with a non-digit (outside the stub's domain)"})
+		}
+		pos := 0
+		for k, w := range widths {
+			if k >= len(args) {
+				return Tuple{it.c64(int64(k)), it.newError("too few operands for format '%" + "d'")}
+			}
+			if pos >= L {
+				return Tuple{it.c64(int64(k)), it.newError("unexpected EOF")}
+			}
+			n := w
+			if L-pos < n {
+				n = L - pos
+			}
+			// value = sum digit_i * 10^i, built like formatInt builds it (same term when the
+			// digits come from there)
+			sum := it.c64(0)
+			p10 := uint64(1)
+			for i := 0; i < n; i++ {
+				c := it.cellAtI(v, pos+n-1-i)
+				var d *Term
+				if c.Op == OAdd && c.Args[1].IsConst() && c.Args[1].Val == '0' {
+					d = c.Args[0]
+				} else {
+					d = st.Sub(c, st.Const(8, '0'))
+				}
+				sum = st.Add(sum, st.Mul(st.Zext(d, 64), st.Const(64, p10)))
+				p10 *= 10
+			}
+			pos += n
+			if v, ok := it.digitSum[sum]; ok {
+				sum = v // the path condition holds sum == v (formatInt)
+			}
+			ptr, ok := args[k].V.(*Ptr)
+			if !ok || args[k].T == nil {
+				panic(pathEnd{"notenc", "fmt.Sscanf operand is not a pointer"})
+			}
+			et := args[k].T.Underlying().(*types.Pointer).Elem()
+			b, ok := et.Underlying().(*types.Basic)
+			if !ok || b.Info()&types.IsInteger == 0 {
+				panic(pathEnd{"notenc", "fmt.Sscanf operand is not an integer pointer"})
+			}
+			wbits := it.sortOf(et).W
+			if wbits < 64 {
+				// a value that does not fit the operand is a range error in the real scanner
+				_, hi := st.rangeOf(sum)
+				if hi > mask(wbits-btoi(b.Info()&types.IsUnsigned == 0)) {
+					panic(pathEnd{"notenc", "fmt.Sscanf into a narrow integer that may overflow"})
+				}
+				it.store(ptr, st.Extract(sum, wbits-1, 0), et)
+			} else {
+				it.store(ptr, sum, et)
+			}
+		}
+		if len(args) > len(widths) {
+			return Tuple{it.c64(int64(len(widths))), it.newError("too many operands")}
+		}
+		return Tuple{it.c64(int64(len(widths))), it.nilError()}
 	}
 	s["strconv.Itoa"] = func(it *Interp, fr *frame, cc *ssa.CallCommon, a []Value) Value {
 		return it.formatInt(a[0].(*Term), true, 0, false)
